@@ -98,4 +98,13 @@ theorem C20_source_find_closest : (Gen.findClosestSource.map (·.1)) = ["candida
     Gen.findClosestSource.lookup "candidates" = some "ridx = np.array([k[1] for k in dists.todok().keys()]) | ridx = ridx[sorted_ridx][:N] | ridx = np.where(dists <= max_dist)[0] | ridx = np.arange(len(dists))" :=
   ⟨by rfl, by rfl, by rfl, by rfl⟩
 
+/-- `MetricSpace.dists` / `MetricSpacePair.dists` / `diagonal` as they are in the source now: kd-tree sparse matrix iff `max_dist` is set and the metric is euclidean, else `pdist` / `cdist`; sub-matrices fill missing entries with `inf` and a zero diagonal -/
+theorem C20_source_dists : Gen.metricSpaceSource =
+    [
+    ("sparse_condition", "self.max_dist is not None and self.dist_metric == 'euclidean'"),
+    ("dists", "self._dists = self.tree.sparse_distance_matrix(self.tree, self.max_dist, output_type='coo_matrix').tocsr() | self._dists = squareform(pdist(self.coords, metric=self.dist_metric, **self.dist_metric_kwargs))"),
+    ("pair_dists", "self._dists = self.ms1.tree.sparse_distance_matrix(self.ms2.tree, self.max_dist, output_type='coo_matrix').tocsr() | self._dists = cdist(self.ms1.coords, self.ms2.coords, metric=self.ms1.dist_metric, **self.ms1.dist_metric_kwargs)"),
+    ("diagonal", "dist_mat = self.dists | dist_mat = dist_mat[idx, :][:, idx] | dist_mat = _sparse_dok_get(dist_mat.todok(), np.inf) | np.fill_diagonal(dist_mat, 0)"),
+    ("diagonal_return", "return squareform(dist_mat)")] := by rfl
+
 end Skg
